@@ -65,7 +65,7 @@ claim('C18', 'exception-escape set of the handler, CFG ordering (no state write 
       'need_fetch set exactly with a raise and on_missing_data fires iff need_fetch on every path; aggregate is '
       'max(agg_sv.get(k,0), v) and a suppression period starts from a copy of its first vector; on_timer sends iff necessary, '
       'suppression overridden only by agg_sv.get(id,0) < local over all local entries, steady state never suppressed; new_data '
-      '+1/own id/timer armed; sync Interest carries every local entry. the missing-data callback is the last effect of the handler (no timer / state write after it); Does not decide timers or suppression timing.',
+      '+1/own id/timer armed; sync Interest carries every local entry. the missing-data callback is the last effect of the handler (no timer / state write after it) and the periodic timer is restarted only when no emission is already due; Does not decide timers or suppression timing.',
       'user callback on_missing_data does not raise; asyncio timer behaviour')
 
 claim('C14', 'default-argument lint, finite-domain dispatch evaluation over SignatureType, must-pass-through and provenance of key material, wiring checks of the validator composition',
@@ -83,7 +83,7 @@ claim('C15', 'SQL effect extraction from string constants (table, WHERE columns,
       'scope bound to self.row_id; a missing entry raises KeyError; the nine default-maintaining triggers exist with the right '
       'timing, WHEN clause and owner scope, and set_default_* go through UPDATE + commit; every self.pib.<m>() delegation resolves '
       'to an existing keychain method; the signer memo key depends on every argument of tpm.get_signer; key locator defaults to the '
-      'certificate; deletes remove certificates, key row and private key (cascade is inert) and reset the signer cache afterwards; '
+      'certificate, key name and certificate name belong together on every path, a Key / Identity object given as argument is used even when it holds nothing; deletes remove certificates, key row and private key (cascade is inert) and reset the signer cache afterwards; '
       'no commit between dependent inserts without a compensating delete; TpmFile names files from one encoding. '
       'Does not decide histories, crash points or reopen.',
       'sqlite3 trigger/unique-index semantics; no PRAGMA foreign_keys in the package')
